@@ -56,7 +56,8 @@ ASSUMPTIONS = [
     "(items still pending at the failure are cancelled) and the stream must be completed with errors",
     "errors are compared as the set of topmost error paths (errors below an already nulled position may be dropped)",
     "reference response computed by graphql-core's own non-incremental execute() (C02/C03 cover it)",
-    "object types only (no abstract types), String/Int scalars, single operation, no fragment arguments",
+    "String/Int scalars, single operation, no fragment arguments; abstract types: one interface and one union per level, "
+    "runtime type always one of the two members (invalid runtime types are C02/C13 matter)",
 ]
 EXPLANATION = (
     "Theorems: plan_partition, plan_parts_characterised, filtered_set_spec, assemble_order_independent (+ exact "
@@ -234,6 +235,11 @@ def _work(args):
         if case.get("overlap_stream"):
             st["cases_overlap_stream"] = st.get("cases_overlap_stream", 0) + 1
         st["mode_" + prep["mode"]] = st.get("mode_" + prep["mode"], 0) + 1
+        dtext = json.dumps(case["data"])
+        if '"$type"' in dtext:
+            st["cases_with_abstract_values"] = st.get("cases_with_abstract_values", 0) + 1
+        if '"$rt": "async"' in dtext or '"$isof": "async"' in dtext:
+            st["cases_with_awaitable_type_resolution"] = st.get("cases_with_awaitable_type_resolution", 0) + 1
         if case["noprop"]:
             st["propagation_disabled"] = st.get("propagation_disabled", 0) + 1
         if prep["truncated"]:
@@ -510,7 +516,7 @@ def explore(ctx) -> Report:
     rep.failures += plan_rep.failures
     rep.rule = (
         f"{n_cases} generated (query, data) cases + {n_overlap} cases of the dedicated overlap stream (one field shared by a "
-        "deferred fragment and a fragment nested 1-2 defers deep in a sibling fragment, independent gates) + corpus over the fixed 4-level schema; each under early in {{F,T}} x "
+        "deferred fragment and a fragment nested 1-2 defers deep in a sibling fragment, independent gates) + corpus over the fixed 4-level schema (objects, lists, one interface and one union per level with sync / awaitable resolve_type and none / sync / awaitable is_type_of); each under early in {{F,T}} x "
         f"consumer in {{eager, lazy}} x all completion orders of the harness handles (DFS, cap {cap} per combination) + 2 "
         "random interleavings with random pull timing; non-trivial = the run produced an initial result with pending "
         "entries and subsequent payloads (cases answered by a single response are counted separately); plus "
